@@ -163,7 +163,11 @@ def restart_local(fs, name_pre=None, desc_pre=None):
     from sievelib.parser import Parser
     text = str(fs)
     p = Parser()
-    if not p.parse(text):
+    try:
+        ok = p.parse(text)
+    except Exception as e:      # the parser gave up on the library's own rendering with something other than a verdict
+        return None, text, "parser raised %s: %s" % (type(e).__name__, e)
+    if not ok:
         return None, text, getattr(p, "error", "?")
     kw = {}
     if name_pre is not None:
@@ -179,7 +183,11 @@ def load_text(text, name="reloaded", name_pre=None, desc_pre=None):
     from sievelib.factory import FiltersSet
     from sievelib.parser import Parser
     p = Parser()
-    if not p.parse(text):
+    try:
+        ok = p.parse(text)
+    except Exception as e:
+        return None, "parser raised %s: %s" % (type(e).__name__, e)
+    if not ok:
         return None, getattr(p, "error", "?")
     kw = {}
     if name_pre is not None:
